@@ -65,7 +65,7 @@ def run(facts, R):
     ds = Sym(db)
     rows = value_rows(db, ds, facts, 0)
     none_rows = [(g, v) for g, v in rows if v == "Result::Ok{0: Option::None{}}"]
-    ok = len(none_rows) == 1 and none_rows[0][0] == ["Vec::is_empty(arg1.body) is True"]
+    ok = len(none_rows) == 1 and len(none_rows[0][0]) == 1 and none_rows[0][0][0].endswith("is_empty(arg1.body) is True")      # Vec::is_empty or the slice's
     R.check(ok, "read-path-pure", db.path, "empty body -> None before any format test", "decode_body None rows: %s" % none_rows, db.span, "Ok(None) iff body.is_empty()")
     for g, v in rows:
         if v.startswith("Result::Ok{") and v != "Result::Ok{0: Option::None{}}" and not v.startswith("Result::Ok{0: Option::Some"):
@@ -75,7 +75,7 @@ def run(facts, R):
                   "decode_body returns %s for a non-empty body: the decoder decides whether there is a body, so a body it maps to None (JSON null) "
                   "turns a write or a call into a read" % v[:100], db.span)
         if v.startswith("Result::Ok{0: Option::Some"):
-            R.check(any(x == "Vec::is_empty(arg1.body) is False" for x in g), "read-path-pure", db.path, "Some only for a non-empty body", "decode_body returns %s under %s" % (v[:60], g), db.span)
+            R.check(any(x.endswith("is_empty(arg1.body) is False") for x in g), "read-path-pure", db.path, "Some only for a non-empty body", "decode_body returns %s under %s" % (v[:60], g), db.span)
 
     # ---------------- index-token: inside an array a reference token addresses an element only if it is a decimal number; the
     # element index handed to the array comes from `str::parse::<usize>` of that very token (its Ok value) - an empty token, a
@@ -84,25 +84,25 @@ def run(facts, R):
     for fn_ in ("registry::resolve_ref", "registry::resolve_mut", "registry::set_pointer"):
         if not facts.has_body(fn_):
             continue
-        ib = facts.body(fn_)
-        isym = Sym(ib)
-        for i, t in ib.calls():
-            if t["callee"]["name"] not in ("get", "get_mut", "index", "index_mut", "insert", "remove", "swap_remove") or len(t["args"]) < 2:
-                continue
-            tys = t.get("arg_tys") or []
-            if len(tys) < 2 or tys[1] != "usize":
-                continue
-            n_idx += 1
-            if getattr(ib, "changed", False):
-                from analysis.sym import split_eval as _se
-                alts = _se(isym, i, len(ib.blocks[i]["stmts"]), lambda v_: v_.op(t["args"][1])) or [({}, isym.op(t["args"][1]))]
-            else:
-                alts = [({}, isym.op(t["args"][1]))]
-            for _, v in alts:
-                parses = [x for x in walk(v) if x[0] == "call" and x[1].rsplit("::", 1)[-1] == "parse" and "str" in x[1]]
-                R.check(bool(parses) and "as Ok" in render(v) or "as Continue" in render(v) and bool(parses), "index-token", ib.path, "array index is the parsed reference token",
-                        "an array element is addressed with %s, which is not the Ok value of str::parse::<usize>(token): tokens that are not plain decimal numbers "
-                        "(the empty token of `/items/`) may address an element" % render(v)[:120], t.get("span"), "index = token.parse::<usize>()?")
+        for ib in [facts.body(fn_)] + list(facts.children(fn_)):      # (a walk written as try_fold keeps its steps in a closure)
+            isym = Sym(ib)
+            for i, t in ib.calls():
+                if t["callee"]["name"] not in ("get", "get_mut", "index", "index_mut", "insert", "remove", "swap_remove") or len(t["args"]) < 2:
+                    continue
+                tys = t.get("arg_tys") or []
+                if len(tys) < 2 or tys[1] != "usize":
+                    continue
+                n_idx += 1
+                if getattr(ib, "changed", False):
+                    from analysis.sym import split_eval as _se
+                    alts = _se(isym, i, len(ib.blocks[i]["stmts"]), lambda v_: v_.op(t["args"][1])) or [({}, isym.op(t["args"][1]))]
+                else:
+                    alts = [({}, isym.op(t["args"][1]))]
+                for _, v in alts:
+                    parses = [x for x in walk(v) if x[0] == "call" and x[1].rsplit("::", 1)[-1] == "parse" and "str" in x[1]]
+                    R.check(bool(parses) and "as Ok" in render(v) or "as Continue" in render(v) and bool(parses), "index-token", ib.path, "array index is the parsed reference token",
+                            "an array element is addressed with %s, which is not the Ok value of str::parse::<usize>(token): tokens that are not plain decimal numbers "
+                            "(the empty token of `/items/`) may address an element" % render(v)[:120], t.get("span"), "index = token.parse::<usize>()?")
     R.floor("index-token", n_idx, 3, "array accesses by index in the pointer walkers (one per walker at least)")
 
     # ---------------- callable-once -----------------------------------------------------------------------------
